@@ -47,8 +47,7 @@ func (w *world) execVC(f []string) string {
 		i := i
 		pn.goSafe(&wg, func() {
 			ready.Add(1)
-			for !start.Load() { // spin: all creators leave the barrier within a few nanoseconds
-			}
+			spinUntil(&start) // all creators leave the barrier within a few nanoseconds
 			ls[i] = v.n.Listener(val)
 		})
 	}
